@@ -334,7 +334,10 @@ func c14Stress(t *testing.T, viaAPI bool) {
 					missing = n - held
 					break
 				}
-				t.Skipf("inconclusive: dispatcher did not catch up in 60 s (%d of %d alerts held)", held, n)
+				// still making progress on a slow machine: keep waiting (bounded by the test timeout)
+				deadline = time.Now().Add(30 * time.Second)
+				time.Sleep(50 * time.Millisecond)
+				continue
 			}
 			break
 		}
